@@ -541,12 +541,16 @@ theorem anchoredLiteral_foldCase_fixed :
   decide
 
 set_option maxRecDepth 1000000 in
-/-- FINDING (line anchors accepted, predicate level — meta only reaches the matcher for `\A`-anchored patterns):
-    `DetectAnchoredLiteral` accepts `(?m)^a.*b$`; on "xx\nab" the matcher says no, a multi-line search finds `(3,5)`. -/
-theorem anchoredLiteral_multiline_counterexample :
-    let re := Re.cat [Re.leaf .beginLine, Re.lit [97], Re.starOf (Re.leaf .anyCharNotNL), Re.lit [98], Re.leaf .endLine]
-    (detectAnchoredLiteral re).map (fun info => anchoredFindAt #[120, 120, 10, 97, 98] info 0) = some none ∧
-    Ref.refFind re #[120, 120, 10, 97, 98] 0 = some (3, 5) := by
+/-- FORMER FINDING, repaired (fix commit "the anchored-literal matcher must not accept multi-line anchors"):
+    `DetectAnchoredLiteral` used to accept `(?m)^a.*b$`, and on "xx\nab" the matcher said no where a multi-line search finds
+    `(3,5)`.  The line anchors no longer qualify: the pattern is rejected, whichever of the two anchors is a line anchor. -/
+theorem anchoredLiteral_multiline_fixed :
+    detectAnchoredLiteral (Re.cat [Re.leaf .beginLine, Re.lit [97], Re.starOf (Re.leaf .anyCharNotNL), Re.lit [98], Re.leaf .endLine]) = none ∧
+    detectAnchoredLiteral (Re.cat [Re.leaf .beginText, Re.lit [97], Re.starOf (Re.leaf .anyCharNotNL), Re.lit [98], Re.leaf .endLine]) = none ∧
+    detectAnchoredLiteral (Re.cat [Re.leaf .beginLine, Re.lit [97], Re.starOf (Re.leaf .anyCharNotNL), Re.lit [98], Re.leaf .endText]) = none ∧
+    (detectAnchoredLiteral (Re.cat [Re.leaf .beginText, Re.lit [97], Re.starOf (Re.leaf .anyCharNotNL), Re.lit [98], Re.leaf .endText])).isSome = true ∧
+    Ref.refFind (Re.cat [Re.leaf .beginLine, Re.lit [97], Re.starOf (Re.leaf .anyCharNotNL), Re.lit [98], Re.leaf .endLine])
+      #[120, 120, 10, 97, 98] 0 = some (3, 5) := by
   decide
 
 end Cx.Fast
